@@ -84,6 +84,11 @@ func (e *TokenErrorResponse) Error() string {
 type TokenEndpointResponse struct {
 	*TokenInfoResponse
 	*TokenErrorResponse
+
+	// Lifetime takes precedence over the ExpiresIn field of the embedded TokenInfoResponse while decoding the
+	// response. Compared to that field, it allows to tell a token with a lifetime of 0 seconds, which is
+	// expired already, from a token without any information about its lifetime.
+	Lifetime *int64 `json:"expires_in,omitempty"`
 }
 
 func (r TokenEndpointResponse) error() error {
@@ -107,7 +112,11 @@ func (r TokenEndpointResponse) TokenInfo() (*TokenInfo, error) {
 	}
 
 	var expiry time.Time
-	if r.ExpiresIn != 0 {
+
+	switch {
+	case r.Lifetime != nil:
+		expiry = time.Now().Add(time.Duration(*r.Lifetime) * time.Second)
+	case r.ExpiresIn != 0:
 		expiry = time.Now().Add(time.Duration(r.ExpiresIn) * time.Second)
 	}
 
